@@ -1,6 +1,7 @@
 mod openapi;
 mod serde;
 
+pub(super) use self::serde::{Case, Separatable};
 use syn::Attribute;
 
 #[derive(Default)]
